@@ -1,10 +1,27 @@
 /-
-  C19 — Diagnostic display.  Property theorems only.  (placeholder: examples only; the
-  general theorems are being added)
+  C19 — Diagnostic display is total, size-bounded and follows the documented notation.
+  Property theorems only; the step function, the termination measure and the potential function
+  are in `Lemmas/Display*.lean`.
 -/
-import Minicbor.Token
+import Minicbor.Lemmas.TokenBasic
+import Minicbor.Lemmas.DisplayTotal
 
 namespace Minicbor.C19
+
+/-- **`display` is total**: for every byte string the tokenizer finishes without panicking and the
+    printer's two loops terminate within their fuels (`mu`, `Lemmas/DisplayTotal.lean`, bounds the
+    iterations of the inner loop by `6·tokens + stack`; every round of the outer loop consumes a
+    token or returns), so the model always produces an output.  Decoding problems are part of that
+    output (see `display_error_inline`), never a failure. -/
+theorem display_total (bs : Bytes) : ∃ ps, display bs = some ps := by
+  obtain ⟨ts, tail, h1, _, _⟩ := tokenize_spec (bs.length + 1) bs (Nat.lt_succ_self _)
+  unfold display
+  rw [show tokens bs = some (ts.map TokItem.tok ++ tail) from h1]
+  exact displayOuter_total _ _ _ _ (by omega) (by omega)
+
+theorem display_ne_none (bs : Bytes) : display bs ≠ none := by
+  obtain ⟨ps, h⟩ := display_total bs
+  rw [h]; simp
 
 /-- concrete evaluations (tests, not the general claim): a definite array with an extreme
     declared length renders its head, reports the end of input inline and stops. -/
